@@ -210,12 +210,65 @@ def opLoadConf (args : List String) : Option String := do
   | _ => none
 end ConfigOps
 
+/-! ### C18 views -/
+section ViewOps
+open Arim.Views
+
+def showWord (w : Word) : String := String.ofList w
+def showVName (v : VName) : String := showWord v.1 ++ "-" ++ showWord v.2
+def showOB : Option Bool → String | none => "N" | some true => "T" | some false => "F"
+def showIface (i : Iface) : String :=
+  let pts := match i.pts with | .probe => "probe" | .frontwall => "frontwall" | .backwall => "backwall" | .grid => "grid"
+  let k := match i.kind with | none => "N" | some .fluidSolid => "fluid_solid" | some .solidFluid => "solid_fluid"
+  let tr := match i.tr with | none => "N" | some .transmission => "transmission" | some .reflection => "reflection"
+  let ag := match i.against with | none => "N" | some .couplant => "couplant" | some .block => "block" | some .under => "under"
+  join [pts, k, tr, ag, showOB i.inc, showOB i.out] ":"
+def showMat : Mat → String | .couplant => "couplant" | .block => "block" | .under => "under"
+def showPath (p : PathSpec) : String :=
+  join [showWord p.name, showWord p.modes, join (p.mats.map showMat), join (p.ifaces.map showIface) ";"] "|"
+
+def setup? (s : String) : Option Setup :=
+  match s.toList with
+  | ['i'] => some .immersion
+  | ['c', a, b, c] => some (.contact (a == '1') (b == '1') (c == '1'))
+  | _ => none
+
+def opViewnames (args : List String) : Option String := do
+  match args with
+  | [names, u] =>
+    let ws := (splitNE names ",").map String.toList
+    pure (join ((makeViewnames ws (u == "1")).map showVName))
+  | _ => none
+
+def opRecip (args : List String) : Option String := do
+  match args with
+  | [v] => let v ← splitName v; pure (showVName (recip v))
+  | _ => none
+
+/-- `pathspec <setup> <word>` → spec | reversed | reversed twice -/
+def opPathSpec (args : List String) : Option String := do
+  match args with
+  | [su, w] =>
+    let su ← setup? su
+    match expectedPath su w.toList with
+    | none => pure "none"
+    | some p =>
+      let r := p.reverse
+      let rr := r.bind PathSpec.reverse
+      let sh := fun (o : Option PathSpec) => match o with | none => "err" | some q => showPath q
+      pure (showPath p ++ " " ++ sh r ++ " " ++ sh rr)
+  | _ => none
+end ViewOps
+
 def dispatch (op : String) (args : List String) : String :=
   let r : Option String :=
     match op with
     | "fermat" => opFermat args
     | "minplus" => opMinPlus args
     | "chunks" => opChunks args
+    | "viewnames" => opViewnames args
+    | "recip" => opRecip args
+    | "pathspec" => opPathSpec args
     | "merge" => opMerge args
     | "loadconf" => opLoadConf args
     | "frame" => opFrame args
